@@ -41,6 +41,13 @@ thread_local! {
     /// called at the instant a DELETE takes effect (before the object disappears)
     pub static DELETE_OBSERVER: RefCell<Option<Box<dyn Fn(&str)>>> = const { RefCell::new(None) };
 }
+thread_local! {
+    /// called when a request is issued (before its gate is granted): (node, op, path)
+    pub static ISSUE_OBSERVER: RefCell<Option<Box<dyn Fn(u32, &str, &str)>>> = const { RefCell::new(None) };
+}
+pub fn set_issue_observer(f: Box<dyn Fn(u32, &str, &str)>) {
+    ISSUE_OBSERVER.with(|o| *o.borrow_mut() = Some(f));
+}
 pub fn set_delete_observer(f: Box<dyn Fn(&str)>) {
     DELETE_OBSERVER.with(|o| *o.borrow_mut() = Some(f));
 }
@@ -97,6 +104,11 @@ impl SimStore {
     }
 
     async fn pre(&self, op: &'static str, path: &str, extra: &str) -> Fault {
+        ISSUE_OBSERVER.with(|o| {
+            if let Some(f) = o.borrow().as_ref() {
+                f(self.node, op, path)
+            }
+        });
         let site = if extra.is_empty() { format!("{op} {path}") } else { format!("{op} {path} {extra}") };
         let f = sim::gate(self.node, self.inc, GateClass::Store, site).await;
         match f {
